@@ -66,6 +66,22 @@ fn partial_tree(calls: &[WCall]) -> Vec<Node> {
     roots
 }
 
+/// true iff some master started with an explicit size width is still open before calls[pos]
+fn explicit_width_open_at(calls: &[WCall], pos: usize) -> bool {
+    let mut stack: Vec<bool> = Vec::new();
+    for call in &calls[..pos] {
+        match call {
+            WCall::Write(Item::Start(_), opt) => stack.push(matches!(opt, SizeOpt::Width(_))),
+            WCall::DeprecatedUnknown(_) => stack.push(false),
+            WCall::Write(Item::End(_), _) => {
+                stack.pop();
+            }
+            _ => {}
+        }
+    }
+    stack.iter().any(|w| *w)
+}
+
 fn run(c: &mut Case) {
     let o = DocOpts { p_width: 8, p_unknown: 35, raw: false, shaping: false, full_specs: false };
     let doc = gen_doc(&mut c.rng, c.tier, &o);
@@ -95,6 +111,10 @@ fn run(c: &mut Case) {
             };
             let n = c.rng.urange(0, 12);
             let pos = c.rng.urange(0, calls.len());
+            // not inside a master that was started with an explicit size width: the extra bytes could overflow that width
+            if explicit_width_open_at(&calls, pos) {
+                continue;
+            }
             let data = c.rng.bytes(n);
             calls.insert(pos, WCall::WriteRaw(id, data));
             c.count("write_raw_calls");
